@@ -143,6 +143,20 @@ def _acked_ok(a: dict[str, Any], b: dict[str, Any],
                 got = cands[0] if cands else None
             if got is None:
                 if changed_later:
+                    # the in-flight command may or may not have taken the
+                    # message away - but if it is still served here, under
+                    # the same UIDVALIDITY, it must be under its own UID
+                    if rbox['uidvalidity'] == abox['uidvalidity']:
+                        other = [u for u, v in rbox['messages'].items()
+                                 if v[0] == vid and u != uid]
+                        if other:
+                            out.fail('acknowledged-message-changed-uid-'
+                                     'after-restart',
+                                     f'{where}: {name!r} UID {uid} ({vid!r}) '
+                                     f'is served as UID {other[0]} after the '
+                                     f'restart, UIDVALIDITY unchanged '
+                                     f'({abox["uidvalidity"]})')
+                            return
                     continue
                 out.fail('acknowledged-message-lost-after-restart',
                          f'{where}: {name!r} UID {uid} ({vid!r}) is not '
